@@ -27,7 +27,7 @@ of the last `syncDir` (`crashPowerWith`, all choices). The size a fresh file get
 namespace Badger
 
 def PowerSafe (R : ViewRel) (c : Cfg) : Prop :=
-  ∀ (h : List Sched), HistOk R (MState.init c).p h →
+  ∀ (h : List Sched), SchedHistOk R (MState.init c).p h →
     ∀ (keepDir : Path → Bool) (keepData : Nat → Bool),
       ∃ r, recover false (crashPowerWith ((MState.init c).exec h).fs keepDir keepData) = .ok r ∧
         ∃ k, ((MState.init c).exec h).p.acked ≤ k ∧ k ≤ ((MState.init c).exec h).p.commits.length ∧
@@ -73,7 +73,7 @@ theorem C10_f4_facts :
     never-fsynced directory entry of the new WAL file -/
 theorem C10_counterexample : ¬ C10_power_safe_oldStatement setView := by
   intro h
-  obtain ⟨r, hr, k, hk1, hk2, hv⟩ := h { dirSyncFix := false } rfl rfl f4History (by simp [f4History, HistOk])
+  obtain ⟨r, hr, k, hk1, hk2, hv⟩ := h { dirSyncFix := false } rfl rfl f4History (by simp [f4History, SchedHistOk])
     (fun p => p != .mem 2) (fun _ => true)
   obtain ⟨ha, hc, he⟩ := C10_f4_facts
   rw [hr] at he
